@@ -4,8 +4,10 @@ use crate::fl::Fl;
 use crate::ledger::{self, *};
 use crate::world::*;
 
-pub const PROBE_SLOT0: usize = 12;
-pub const DRAIN_SLOT0: usize = 16;
+pub const PRE_SEND_SLOT0: usize = 12;
+pub const PRE_RECV_SLOT0: usize = 16;
+pub const PROBE_SLOT0: usize = 24;
+pub const DRAIN_SLOT0: usize = 30;
 
 pub struct Finish {
     /// normalised capacity
